@@ -33,6 +33,35 @@ MIN_OBLIGATIONS = 14
 MIN_PER_RULE = {'C04.1': 8, 'C04.2': 1, 'C04.3': 2}
 
 
+def _iterative_walk(graph):
+    """(var, loop head, advancing nodes) of a walk  v = self; while v: ...;
+    v = v.parent  in the function, or None."""
+    nz = N.Normaliser()
+    for head in graph.nodes:
+        if head.kind != 'loop_head' or head.ast is None or \
+                not isinstance(head.ast, ast.While):
+            continue
+        body = K.loop_body_nodes(head)
+        adv = [n for n in body if n.kind == 'stmt' and
+               isinstance(n.ast, ast.Assign) and
+               isinstance(n.ast.targets[0], ast.Name) and
+               N.txt(n.ast.value) == '%s.parent' % n.ast.targets[0].id]
+        if not adv:
+            continue
+        var = adv[0].ast.targets[0].id
+        inits = [n for n in graph.nodes if n.kind == 'stmt' and
+                 isinstance(n.ast, ast.Assign) and
+                 N.txt(n.ast.targets[0]) == var and n not in body]
+        if not inits or any(N.txt(n.ast.value) != 'self' for n in inits):
+            continue
+        atom = nz.atom(head.ast.test)
+        if atom.key[0] == 'truth' and atom.key[1] == var and atom.key[2] \
+                or atom.key[0] == 'is' and atom.key[1] == var and \
+                atom.key[2] == 'None' and not atom.key[3]:
+            return var, head, adv
+    return None
+
+
 def _counters(ctx):
     index = ctx.index
     node_cls = index.get_class(K.SCHED, 'Node')
@@ -44,18 +73,50 @@ def _counters(ctx):
         ctx.require(func is not None, 'Node.%s' % name)
         graph = ctx.cfg(func)
         param = func.params()[1]
+        walk = _iterative_walk(graph)
+        recv = '%s.affinity_counters' % (walk[0] if walk else 'self')
         hits = K.nodes_calling(
             graph, lambda c, m=meth: K.is_meth(c, m) and
-            K.recv_text(c) == 'self.affinity_counters' and
+            K.recv_text(c) == recv and
             len(c.args) == 1 and N.txt(c.args[0]) == param)
-        seen = K.cut_reach(graph, graph.entry,
-                           cut_node=lambda n: any(n is h for h, _c in hits),
-                           follow_exc=False)
         other = [n for n in graph.nodes if n.kind == 'stmt' and any(
             'affinity_counters' in N.txt(t)
             for t in (n.ast.targets if isinstance(n.ast, ast.Assign) else
                       [n.ast.target] if isinstance(n.ast, ast.AugAssign)
                       else []))]
+        if walk:
+            # iterative form: v = self; while v: v.counters.<m>(arg);
+            # v = v.parent - every iteration applies before advancing and
+            # the walk ends only above the root
+            var, head, adv = walk
+            skip = K.find_path(
+                head, [head, graph.exit],
+                cut_node=lambda n: any(n is h for h, _c in hits),
+                cut_edge=lambda e: e.kind == 'false' and
+                _is_loop_test(head, e.src), follow_exc=False)
+            leaves = [e for e in K.loop_exit_edges(head)
+                      if e.kind != 'exc' and
+                      not _is_loop_test(head, e.src)]
+            noadv = K.find_path(
+                head, [head], cut_node=lambda n: n in adv,
+                cut_edge=lambda e: e.kind == 'false' and
+                _is_loop_test(head, e.src), follow_exc=False)
+            ctx.ob('C04.1', func, hits[0][0] if hits else head,
+                   bool(hits) and skip is None and not other,
+                   '%s applies the whole multiset at every visited level: '
+                   '%s.%s(%s) on every path of the walk, no element-wise '
+                   'rewrite' % (name, recv, meth, param),
+                   construct='self.affinity_counters.%s(%s)' % (meth, param))
+            ctx.ob('C04.1', func, head, not leaves and noadv is None,
+                   '%s walks from this node to the root with the same '
+                   'argument (left only when %s is exhausted, advancing by '
+                   '.parent)' % (name, var),
+                   construct='%s -> self.parent.%s(%s)' % (name, name,
+                                                           param))
+            continue
+        seen = K.cut_reach(graph, graph.entry,
+                           cut_node=lambda n: any(n is h for h, _c in hits),
+                           follow_exc=False)
         ctx.ob('C04.1', func, hits[0][0] if hits else None,
                bool(hits) and graph.exit not in seen and not other,
                '%s applies the whole multiset: affinity_counters.%s(%s) on '
@@ -87,10 +148,14 @@ def _counters(ctx):
         func = index.find_method(server, mname)
         ctx.require(func is not None, 'Server.%s' % mname)
         graph = ctx.cfg(func)
+        appv = func.params()[1] if mname == 'put' else None
         hits = K.nodes_calling(
-            graph, lambda c, cn=cname: K.is_meth(c, cn) and
+            graph, lambda c, cn=cname, f=func: K.is_meth(c, cn) and
             K.recv_text(c) == 'self' and len(c.args) == 1 and
-            N.txt(c.args[0]).endswith('.affinity.name]'))
+            isinstance(K.rexpr(f, c.args[0]), (ast.List, ast.Tuple)) and
+            len(K.rexpr(f, c.args[0]).elts) == 1 and
+            N.txt(K.rexpr(f, c.args[0]).elts[0]).endswith(
+                '.affinity.name'))
         ctx.ob('C04.1', func, hits[0][0] if hits else None, len(hits) == 1,
                'Server.%s calls %s([app.affinity.name]) (exactly-once is '
                'C01.2)' % (mname, cname),
@@ -266,12 +331,36 @@ def _every_level(ctx, node_cls, server, base):
            bool(inits) and all(N.txt(n.ast.value) == 'self' for n in inits),
            'the walk starts at the server itself',
            construct='%s = self' % var)
+    # names holding the visited node: the walking variable and same-
+    # iteration copies of it (re-taken after every advance)
+    holders = {var: None}
+    for n in body:
+        if n.kind == 'stmt' and isinstance(n.ast, ast.Assign) and \
+                len(n.ast.targets) == 1 and \
+                isinstance(n.ast.targets[0], ast.Name) and \
+                N.txt(n.ast.value) == var and n.ast.targets[0].id != var:
+            name = n.ast.targets[0].id
+            others = [m for m in graph.nodes if m is not n and
+                      m.kind == 'stmt' and isinstance(m.ast, ast.Assign)
+                      and any(N.txt(t) == name for t in m.ast.targets)]
+            if not others:
+                holders[name] = n
+
+    def visited(expr, at):
+        name = N.txt(expr)
+        if name not in holders:
+            return False
+        taken = holders[name]
+        if taken is None:
+            return True
+        return all(K.find_path(a, [at], cut_node=lambda m: m is taken,
+                               follow_exc=False) is None for a in adv)
     checks = [n for n in body if n.kind == 'test' and any(
         K.is_meth(c, base.name) and (
             (dotted_text(c.func) or '').split('.')[0] in
             ('Node', 'super') and len(c.args) == 2 and
-            N.txt(c.args[0]) == var and N.txt(c.args[1]) == app or
-            K.recv_text(c) == var and len(c.args) == 1 and
+            visited(c.args[0], n) and N.txt(c.args[1]) == app or
+            visited(K.recv(c), n) and len(c.args) == 1 and
             N.txt(c.args[0]) == app)
         for c in K.calls(n.ast))]
     ctx.ob('C04.3', leaf, checks[0] if checks else head, bool(checks),
